@@ -149,7 +149,7 @@ def __parse_unit_string_to_list(unit_string: str) -> List[Union[str, List]]:
     raw_tokens_list = []  # The raw list of tokens
     tokens_list = []  # The final list of tokens
 
-    token_pattern = re.compile(r"[a-zA-Z]+(\^-?[0-9]+)?|/|\*|\(.*?\)")
+    token_pattern = re.compile(r"[a-zA-Z]+(\^-?[0-9]+)?|/|\*|\([^()]*\)")
     bracket_enclosed_expression_pattern = re.compile(r"\(.*?\)")
     unit_with_exponent_pattern = re.compile(r"[a-zA-Z]+\^-?[0-9]+")
     operator_pattern = re.compile(r"[/*]")
